@@ -46,7 +46,7 @@ def specs(rng, tier, wid, nw, env):
                 for rep in range(1 if q else 4):
                     k += 1
                     if k % nw == wid: yield ('logic', an, bn, rng.choice(VC), rng.choice(VC), sg, rng.choice(['w', 'w=u', 'w=v', 'u=v']), rng.getrandbits(48))
-    N = 3000 if q else 120000
+    N = 25000 if q else 400000
     for i in range(N):
         c = rng.random()
         if c < 0.4: yield ('logic', rng.randint(0, 12), rng.randint(0, 12), rng.choice(VC), rng.choice(VC), rng.randint(0, 3), rng.choice(['w', 'w=u', 'w=v', 'u=v']), rng.getrandbits(48))
